@@ -168,7 +168,8 @@ fn check_pair(def: &DefSpec, run: &mut Run) -> Result<(), String> {
         return Ok(());
     };
     // the regex must match w entirely, otherwise the pair says nothing
-    let rx = 1 - tok_variant;
+    let rx = def.variants.iter().position(|v| v[0].kind == PatKind::Regex && v[0].priority.is_none()).unwrap();
+    let n_leaves = def.variants.len();
     let Matcher::Dfa(_) = &r.pats[rx].matcher else { return Ok(()) };
     let pr = r.pats[rx].matcher.run(&w, 0);
     if !pr.ends.contains(&w.len()) {
@@ -185,9 +186,12 @@ fn check_pair(def: &DefSpec, run: &mut Run) -> Result<(), String> {
         run.count("no_graph", 1);
         return Ok(());
     };
-    if g.leaves.len() != 2 {
+    if g.leaves.len() != n_leaves {
         run.count("no_graph", 1);
         return Ok(());
+    }
+    if n_leaves == 3 {
+        run.count("pairs_with_a_bystander_between", 1);
     }
     let pt = g.leaves[tok_variant].priority;
     let prx = g.leaves[rx].priority;
